@@ -14,20 +14,22 @@ struct CaptureSink : public AsyncSink {
     virtual void endline() override { lines.push_back(std::string(cache_.begin(), cache_.end())); cache_.clear(); }
     virtual void flush() override { ++flushes; }
 };
-int main() {
+int main(int argc, char **argv) {
+    // "longname": a source file path longer than the 1 KiB formatting buffer (legal: PATH_MAX is 4096) - under ASan the over-read of that buffer shows
+    static std::string longname(1500, 'a'); bool use_long = argc > 1 && std::string(argv[1]) == "longname";
     CaptureSink sink;
     AsyncSink::Config cfg; cfg.buff_size = 1024; cfg.buff_min_num = 2; cfg.buff_max_num = 4; cfg.interval = 50;
     sink.setConfig(cfg);
     sink.setLevel("", LOG_LEVEL_TRACE);
     sink.enable();
     LogContent c; memset(&c, 0, sizeof(c));
-    c.thread_id = 1; c.module_id = "m"; c.func_name = "f"; c.file_name = "x.cpp"; c.line = 7; c.level = LOG_LEVEL_INFO;
+    c.thread_id = 1; c.module_id = "m"; c.func_name = "f"; c.file_name = use_long ? longname.c_str() : "x.cpp"; c.line = 7; c.level = LOG_LEVEL_INFO;
     const char *t1 = "first"; c.text_ptr = t1; c.text_len = 5; sink.push(&c);
     c.line = 8; c.text_ptr = ""; c.text_len = 0; sink.push(&c);           // empty text, last record of the batch
     sink.disable();
     printf("records out of the back end: %zu (expected 2), flushes: %d\n", sink.lines.size(), sink.flushes);
     for (auto &l : sink.lines) printf("  | %s\n", l.c_str());
-    if (sink.lines.size() != 2 || sink.lines[1].find("x.cpp:8") == std::string::npos) {
+    if (sink.lines.size() != 2 || sink.lines[1].find(":8") == std::string::npos) {
         printf("VIOLATION: a record logged before disable() never came out of the async back end (empty text as the last record)\n");
         return 1;
     }
